@@ -9,7 +9,7 @@ reg("C18", "^TestC18$", q=(3000, 1, 300), t=(20000, 16, 1500), fuzz=("FuzzC18", 
     note="Trusted: the 15-line integer specification in c18_test.go; duplicate-block barrier assumes a repeated block is a no-op (it is part of the property: at most one event per epoch).",
     design="§3 C18")
 
-reg("C19", "^TestC19$", q=(4000, 1, 300), t=(40000, 16, 1500), fuzz=("FuzzC19", 120),
+reg("C19", "^TestC19(FEP)?$", q=(4000, 1, 300), t=(40000, 16, 1500), fuzz=("FuzzC19", 120),
     technique="property-based testing: exhaustive boundary triples + rapid random triples + native coverage-guided fuzzing, oracle = big-int bit-layout formula and cross-carrier equality",
     text="Exploration: encoder/decoder compared with the contract's bit layout; the same value is read back from every carrier "
          "(certificate exit, PP/FEP commitments, Agglayer wire message and prover request through aggkit's real gRPC clients over "
